@@ -214,6 +214,10 @@ pub fn conc_campaigns(property: &str) -> Vec<ConcCampaign> {
             rule: "tiny programs (2-3 client threads x 2-7 operations on 1-2 keys, TTLs, clock moves as program steps) under the controlled scheduler: at every schedule point only the highest-priority parked thread (clients, command worker, sweeper, consumer) runs, priorities and priority change points are generated (PCT style), a thread that does not reach its next point within 0.4 ms is taken to be blocked or idle; all history checkers and quiescence invariants; non-trivial = >= 15 scheduling steps over >= 3 threads" },
             ConcCampaign { name: "conc-bursts", profile: Bursts, cases_quick: 800, cases_thorough: 8000, nt: |s| s.queue_full_sends && s.concurrent_in_flight,
             rule: "generated bursts of unawaited writes from 1-8 threads, queue size 1/2/3/8, worker and senders delayed by injection; trace checker: every queued command executed exactly once, executions never overlap, per-thread and real-time cross-thread order preserved, statuses match; when the last acknowledgement of a thread completes all earlier ones are complete; non-trivial = a send waited on a full queue AND two threads had commands in flight at once" }],
+        "C12" => vec![ConcCampaign { name: "conc-acks-around-shutdown", profile: Shutdown, cases_quick: 600, cases_thorough: 8000, nt: |s| s.shutting_down_acks >= 1 && s.real_acks >= 1,
+            rule: "generated concurrent programs with unawaited writes and shutdown() calls, queue 1-8: every acknowledgement that was handed out must complete (no-progress watchdog) with the status the command really ended with, never Pending; non-trivial = at least one acknowledgement ended ShuttingDown and one with a real outcome" },
+            ConcCampaign { name: "conc-acks-general", profile: General, cases_quick: 400, cases_thorough: 6000, nt: |s| s.unawaited_same_key,
+            rule: "generated concurrent programs (General profile): every acknowledgement completes and its status equals the status the worker recorded for the command; non-trivial = overlapping unawaited writes of one key" }],
         "C13" => vec![ConcCampaign { name: "conc-shutdown", profile: Shutdown, cases_quick: 1000, cases_thorough: 10_000, nt: |s| s.shutting_down_acks >= 1 && s.real_acks >= 1,
             rule: "generated concurrent programs containing shutdown() calls anywhere, queue 1-8, unawaited writes in flight, delays between the steps of shutdown() and at the worker; non-trivial = at least one acknowledgement ended ShuttingDown and at least one with a real outcome" }],
         "C15" => vec![ConcCampaign { name: "conc-access-accounting", profile: Reads, cases_quick: 800, cases_thorough: 6000, nt: |s| s.threads >= 2 && s.handovers >= 1,
@@ -406,7 +410,8 @@ fn run_c12(context: &CheckContext, mut outcome: CheckOutcome) -> CheckOutcome {
     }
     stress_report.wall_s = started.elapsed().as_secs_f64();
     outcome.reports.push(stress_report);
-    outcome
+    if !outcome.violations.is_empty() { return outcome; }
+    run_conc_check(context, outcome)
 }
 
 /// Re-runs a saved case; exit code as for a check.
